@@ -15,6 +15,9 @@ import (
 
 // Ask sends all lines to the driver and returns its answers (one per line).
 func Ask(driver string, lines []string) ([]string, error) {
+	if dump := os.Getenv("VERIF_DUMP_LINES"); dump != "" {
+		os.WriteFile(dump, []byte(strings.Join(lines, "\n")+"\n"), 0o644)
+	}
 	cmd := exec.Command(driver)
 	stdin, err := cmd.StdinPipe()
 	if err != nil {
